@@ -232,6 +232,8 @@ def run(ctx):
     # worlds with equal-length key names (open finding C12-delrange-partial-length-order is about the others)
     iso_stage(ctx, zr, "delrange-focus", "pebble", "local", ["-segments", "10" if q else "80", "-len", "70", "-types", "5", "-expire=false",
                                                              "-delrange-w", "12", "-keypool", "0"], stats, samples)
+    iso_stage(ctx, zr, "delrange-focus-compact", "pebble", "compact", ["-segments", "8" if q else "60", "-len", "70", "-types", "5",
+                                                                       "-delrange-w", "12", "-keypool", "0"], stats, samples)
     iso_stage(ctx, zr, "isolate-delrange-anylen", "pebble", "local", ["-segments", "6", "-len", "70", "-types", "5", "-expire=false",
                                                                       "-delrange-w", "12", "-delrange-anylen"], stats, samples,
               expect="C12-delrange-partial-length-order")
